@@ -570,7 +570,7 @@ func (h *vgHarness) exec(i int, st vgStep) vgEvent {
 	ev.Routes = h.routes()
 	ev.Pools = h.pools()
 	ev.Conns = h.connList()
-	if st.Op == "close" || (st.Op == "new" && ev.Res != "OK") {
+	if st.Op == "close" || (st.Op == "new" && ev.Res != "OK") || (st.Op == "conc" && h.closed) {
 		ev.Gor = h.goroutinesAboveBaseline()
 	}
 	return ev
@@ -701,6 +701,11 @@ func (h *vgHarness) execConc(st vgStep, ev *vgEvent) {
 				}
 				return vRes{res: "OK", msg: srv}
 			}
+		case "close":
+			p.fn = func() vRes {
+				h.gme.Close()
+				return vRes{res: "OK"}
+			}
 		case "update":
 			p.fn = func() vRes {
 				h.mu.Lock()
@@ -761,5 +766,10 @@ func (h *vgHarness) execConc(st vgStep, ev *vgEvent) {
 	ev.Exec, ev.Drift = c.exec, c.drift
 	if hung {
 		ev.Res = "HANG"
+	}
+	for k := range st.Procs {
+		if st.Procs[k].Op == "close" && c.procs[k].state == "done" {
+			h.closed = true
+		}
 	}
 }
